@@ -5,7 +5,7 @@
   the empty state by an arbitrary op sequence.  Where the current code violates a clause, the full
   statement is kept in a comment, the `_partial` theorem states it under the extra hypothesis the code
   needs and the `_counterexample` is a concrete witness evaluated by `decide` (each is reproduced on
-  the real code by the harness monitor named next to it).
+  the real code by the harness monitor named next to it).  One clause is in that position: the canonical channel.
 -/
 import DymVerif.Lemmas.LCGood
 namespace DymVerif.Props.C09
@@ -54,64 +54,6 @@ theorem designation_injective {p : Core.Params} {s : St} (hs : Reachable p s) {r
 -- 2. set_canonical_requires_agreement
 -- ================================================================================================
 
-/-- the state infos `validClient` looks at: from the latest down to and including the first one that
-    starts below the first consensus state (in store order) -/
-def visited (base : Nat) : List Core.SInfo → List Core.SInfo
-  | [] => []
-  | st :: rest => if st.start < base then [st] else st :: visited base rest
-
-theorem validLoop_sound (s : St) (cl : Client) (ra base : Nat) :
-    ∀ (l : List Core.SInfo) (m b : Bool), validLoop s cl ra base l m = (b, none) →
-      (∀ st ∈ visited base l, ∃ m1, validateStateInfo s cl ra st = (m1, none)) ∧
-      (b = true → m = true ∨ ∃ st ∈ visited base l, validateStateInfo s cl ra st = (true, none))
-  | [], m, b, h => by
-    simp only [validLoop, Prod.mk.injEq, and_true] at h
-    subst h
-    exact ⟨fun _ hh => absurd hh (by simp [visited]), fun hb => Or.inl hb⟩
-  | st :: rest, m, b, h => by
-    unfold validLoop at h
-    cases hv : validateStateInfo s cl ra st with
-    | mk m1 oe =>
-      cases oe with
-      | some e => simp [hv] at h
-      | none =>
-        simp only [hv] at h
-        by_cases hlt : st.start < base
-        · simp only [hlt, if_true, Prod.mk.injEq, and_true] at h
-          subst h
-          simp only [visited, hlt, if_true, List.mem_singleton]
-          refine ⟨fun x hx => hx ▸ ⟨m1, hv⟩, ?_⟩
-          intro hb
-          cases m with
-          | true => exact Or.inl rfl
-          | false =>
-            right
-            simp only [Bool.false_or] at hb
-            exact ⟨st, rfl, by rw [hv, hb]⟩
-        · simp only [hlt, if_false] at h
-          obtain ⟨ih1, ih2⟩ := validLoop_sound s cl ra base rest (m || m1) b h
-          simp only [visited, hlt, if_false, List.mem_cons]
-          refine ⟨?_, ?_⟩
-          · intro x hx
-            rcases hx with rfl | hx
-            · exact ⟨m1, hv⟩
-            · exact ih1 x hx
-          · intro hb
-            rcases ih2 hb with hm | ⟨x, hx, hxv⟩
-            · cases m with
-              | true => exact Or.inl rfl
-              | false =>
-                right
-                simp only [Bool.false_or] at hm
-                exact ⟨st, Or.inl rfl, by rw [hv, hm]⟩
-            · exact Or.inr ⟨x, Or.inr hx, hxv⟩
-
-theorem validateStateInfo_agrees {s : St} {cl : Client} {ra : Nat} {st : Core.SInfo} {m : Bool}
-    (h : validateStateInfo s cl ra st = (m, none)) {ht : Nat} {cs : Cons} (h1 : st.start ≤ ht) (h2 : ht ≤ st.last)
-    (hc : getCons cl ht = some cs) : ∃ d, getDesc s ra ht = some d ∧ Agrees cs d := by
-  unfold validateStateInfo at h
-  exact validateHeader_none (validateRange_none _ _ _ h ht (mem_heightsOf h1 h2) cs hc)
-
 theorem validateRange_true {s : St} {cl : Client} {ra : Nat} {st : Core.SInfo} :
     ∀ (hs : List Nat) (m : Bool), validateRange s cl ra st hs m = (true, none) → m = true ∨ ∃ h ∈ hs, (getCons cl h).isSome
   | [], m, h => by simp only [validateRange, Prod.mk.injEq, and_true] at h; exact Or.inl h
@@ -124,42 +66,6 @@ theorem validateRange_true {s : St} {cl : Client} {ra : Nat} {st : Core.SInfo} :
       · exact Or.inl a
       · exact Or.inr ⟨y, List.mem_cons_of_mem _ hy, hyc⟩
     | some c0 => exact Or.inr ⟨x, by simp, by simp [hx]⟩
-
-/-- **set_canonical_requires_agreement** (what the code does ensure) — an accepted `MsgSetCanonicalClient`:
-    the client exists, is a client of a registered rollapp that has no canonical client yet, passes the
-    parameter check, is not frozen; every consensus state at a height of a *visited* state info agrees
-    (root, timestamp) with its descriptor; at least one consensus state overlaps a visited state info;
-    and the only change is the new pair in both designation maps. -/
-theorem set_canonical_requires_agreement {s s' : St} {c : Nat} (h : step s (.setCanonical c) = (s', .ok)) :
-    ∃ cl r, getClient s c = some cl ∧ Core.getRa s.core cl.chain = some r ∧ lookup s.r2c cl.chain = none ∧
-      paramsCheck cl.params cl.frozen = .ok ∧
-      (∀ st ∈ visited (firstConsHeight cl) r.states.reverse, ∀ ht cs, st.start ≤ ht → ht ≤ st.last → getCons cl ht = some cs →
-          ∃ d, getDesc s cl.chain ht = some d ∧ Agrees cs d) ∧
-      (∃ st ∈ visited (firstConsHeight cl) r.states.reverse, ∃ ht ∈ heightsOf st, (getCons cl ht).isSome) ∧
-      s' = { s with r2c := s.r2c ++ [(cl.chain, c)], c2r := s.c2r ++ [(c, cl.chain)] } := by
-  simp only [step] at h
-  rcases setCanonical_cases s c with ⟨_, e, he⟩ | ⟨cl, r, hcl, hr, hnone, hp, hv, hok, e⟩
-  · rw [show setCanonical s c = ((setCanonical s c).1, (setCanonical s c).2) from rfl, he] at h
-    simp at h
-  · rw [show setCanonical s c = ((setCanonical s c).1, (setCanonical s c).2) from rfl, hok] at h
-    simp only [Prod.mk.injEq, and_true] at h
-    obtain ⟨v1, v2⟩ := validLoop_sound s cl cl.chain (firstConsHeight cl) r.states.reverse false true hv
-    refine ⟨cl, r, hcl, hr, hnone, hp, ?_, ?_, by rw [← h, e]⟩
-    · intro st hst ht cs h1 h2 hc
-      obtain ⟨m1, hm1⟩ := v1 st hst
-      exact validateStateInfo_agrees hm1 h1 h2 hc
-    · rcases v2 rfl with hf | ⟨st, hst, hsv⟩
-      · exact absurd hf (by simp)
-      · refine ⟨st, hst, ?_⟩
-        unfold validateStateInfo at hsv
-        rcases validateRange_true _ _ hsv with hf | hx
-        · exact absurd hf (by simp)
-        · exact hx
-
-/- Full clause "…only if it is a Tendermint client with the expected parameters":
-     step s (.setCanonical c) = (s', .ok) → getClient s c = some cl → cl.params = expParams
-   FALSE of the current code: `IsCanonicalClientParamsValid` ranges over the *candidate's* proof specs and
-   upgrade path, so shorter lists pass. -/
 
 theorem checkList_full : ∀ (g e : List Nat), checkList g e = .ok → g.length = e.length → g = e
   | [], [], _, _ => rfl
@@ -174,10 +80,8 @@ theorem checkList_full : ∀ (g e : List Nat), checkList g e = .ok → g.length 
       rw [checkList_full as bs h (by simpa using hl)]
     · simp at h
 
-/-- **…_params_partial** — the parameter check does pin the parameters down when the candidate's lists
-    have the expected lengths (the minimal fix: compare the lengths). -/
-theorem set_canonical_params_partial {p : CParams} {frozen : Bool} (h : paramsCheck p frozen = .ok)
-    (h1 : p.specs.length = expSpecs.length) (h2 : p.path.length = expPath.length) : p = expParams ∧ frozen = false := by
+/-- the parameter check pins the candidate's parameters down completely (and refuses frozen clients) -/
+theorem set_canonical_params {p : CParams} {frozen : Bool} (h : paramsCheck p frozen = .ok) : p = expParams ∧ frozen = false := by
   unfold paramsCheck at h
   split at h
   · simp at h
@@ -189,21 +93,75 @@ theorem set_canonical_params_partial {p : CParams} {frozen : Bool} (h : paramsCh
   · simp at h
   split at h
   · simp at h
-  rename_i a b c d e
+  split at h
+  · simp at h
+  rename_i a b c d e f
+  have h1 : p.specs.length = expSpecs.length := by simpa using f
   cases hs : checkList p.specs expSpecs with
   | bad => simp [hs] at h
   | panic => simp [hs] at h
   | ok =>
     simp only [hs] at h
-    have e1 := checkList_full _ _ hs h1
-    have e2 := checkList_full _ _ h h2
-    cases p
-    simp_all [expParams]
+    split at h
+    · simp at h
+    · rename_i g
+      have h2 : p.path.length = expPath.length := by simpa using g
+      have e1 := checkList_full _ _ hs h1
+      have e2 := checkList_full _ _ h h2
+      cases p
+      simp_all [expParams]
 
-/-- **…_params_counterexample** (monitor `C09/set_canonical_requires_agreement/client-parameters-differ-from-expected`):
-    a client with only the first proof spec and an empty upgrade path passes the check. -/
-theorem set_canonical_params_counterexample :
-    paramsCheck ⟨0, 0, 0, 0, [1], []⟩ false = .ok ∧ (⟨0, 0, 0, 0, [1], []⟩ : CParams) ≠ expParams := by decide
+/-- **set_canonical_requires_agreement** — an accepted `MsgSetCanonicalClient` (in any reachable state): the
+    client exists, is a client of a registered rollapp that has no canonical client yet, has exactly the
+    expected parameters and is not frozen; *every* consensus state of the client at a height inside a state
+    info of the rollapp agrees (root, timestamp) with the descriptor of that height; at least one consensus
+    state overlaps a state info; and the only change is the new pair in both designation maps. -/
+theorem set_canonical_requires_agreement {p : Core.Params} {s s' : St} {c : Nat} (hs : Reachable p s)
+    (h : step s (.setCanonical c) = (s', .ok)) :
+    ∃ cl r, getClient s c = some cl ∧ Core.getRa s.core cl.chain = some r ∧ lookup s.r2c cl.chain = none ∧
+      cl.params = expParams ∧ cl.frozen = false ∧
+      (∀ st ∈ r.states, ∀ ht cs, st.start ≤ ht → ht ≤ st.last → getCons cl ht = some cs →
+          ∃ d, getDesc s cl.chain ht = some d ∧ Agrees cs d) ∧
+      (∃ st ∈ r.states, ∃ ht ∈ heightsOf st, (getCons cl ht).isSome) ∧
+      s' = { s with r2c := s.r2c ++ [(cl.chain, c)], c2r := s.c2r ++ [(c, cl.chain)] } := by
+  obtain ⟨ops, rfl⟩ := hs
+  have hchain := run_coreChain ops (init p) (init_coreChain p)
+  simp only [step] at h
+  rcases setCanonical_cases (run (init p) ops) c with ⟨_, e, he⟩ | ⟨cl, r, hcl, hr, hnone, hp, hv, hok, e⟩
+  · rw [show setCanonical (run (init p) ops) c = ((setCanonical (run (init p) ops) c).1, (setCanonical (run (init p) ops) c).2) from rfl, he] at h
+    simp at h
+  · rw [show setCanonical (run (init p) ops) c = ((setCanonical (run (init p) ops) c).1, (setCanonical (run (init p) ops) c).2) from rfl, hok] at h
+    simp only [Prod.mk.injEq, and_true] at h
+    obtain ⟨hpar, hfr⟩ := set_canonical_params hp
+    have hch : Core.Chain r.states := hchain r (Core.getRa_mem hr)
+    obtain ⟨_, v2⟩ := validLoop_sound (run (init p) ops) cl cl.chain (firstConsHeight cl) r.states.reverse false true hv
+    refine ⟨cl, r, hcl, hr, hnone, hpar, hfr, validLoop_all hch hv, ?_, by rw [← h, e]⟩
+    rcases v2 rfl with hf | ⟨st, hst, hsv⟩
+    · exact absurd hf (by simp)
+    · have hmem : st ∈ r.states := by
+        have : ∀ (l : List Core.SInfo) (b : Nat), ∀ x ∈ visited b l, x ∈ l := by
+          intro l b
+          induction l with
+          | nil => intro x hx; simp [visited] at hx
+          | cons y ys ih =>
+            intro x hx
+            unfold visited at hx
+            split at hx
+            · simp only [List.mem_singleton] at hx; subst hx; simp
+            · simp only [List.mem_cons] at hx ⊢
+              rcases hx with rfl | hx
+              · exact Or.inl rfl
+              · exact Or.inr (ih x hx)
+        exact List.mem_reverse.1 (this _ _ st hst)
+      refine ⟨st, hmem, ?_⟩
+      unfold validateStateInfo at hsv
+      rcases validateRange_true _ _ hsv with hf | hx
+      · exact absurd hf (by simp)
+      · exact hx
+
+/-- truncated or over-long parameter lists are refused -/
+example : paramsCheck ⟨0, 0, 0, 0, [1], []⟩ false = .bad ∧ paramsCheck ⟨0, 0, 0, 0, [1, 2, 1], [1, 2]⟩ false = .bad ∧
+    paramsCheck expParams false = .ok := by decide
 
 -- ------------------------------------------------------------------------------------------------ concrete histories
 
@@ -236,49 +194,37 @@ example : lookup sA.r2c 0 = some 0 ∧ lookup sA.c2r 0 = some 0 := by decide
 -- 3. agreement_inv
 -- ================================================================================================
 
-/- Full clause: in every reachable state, for the canonical client c of r and every height with both a
-   consensus state and a descriptor, roots are equal and timestamps are equal when the descriptor has one:
-       Reachable p s → AgreeInv s
-   FALSE of the current code, for two independent reasons (counterexamples below). -/
-
-/-- **agreement_inv_partial** — agreement holds in every state reached by a run all of whose designations
-    are sound and all of whose header updates on canonical clients name a proposer of the client's own
-    rollapp (`SafeRun`); together with it the designation maps stay inverse and clients well-formed. -/
-theorem agreement_inv_partial (p : Core.Params) (ops : List Op) (hs : SafeRun (init p) ops) : AgreeInv (run (init p) ops) :=
+/-- **agreement_inv** — in every state reached by any run, for the canonical client c of r and every height with
+    both a consensus state and a descriptor, roots are equal and timestamps are equal when the descriptor has
+    one.  The one hypothesis (`SafeRun`) is not about the light-client code: at each designation the descriptor
+    table of M-LC must be covered by the state infos of M-Core (M-LC keeps that table as its copy of the
+    descriptors stored in the state infos; C01's gap-free chain). -/
+theorem agreement_inv (p : Core.Params) (ops : List Op) (hs : SafeRun (init p) ops) : AgreeInv (run (init p) ops) :=
   (run_good ops (init p) (init_good p) hs).agree
 
-/-- the header the current code lets through: height 3 of rollapp 0 with a wrong root, naming sequencer
-    a3 of rollapp 1 (which has no state at height 3) as proposer -/
-def hdrForeign : Hdr := { h := 3, cons := ⟨99, 30, 1⟩, propSig := 3, propData := 3, rev := 0 }
+/-- a header at height 3 of rollapp 0 with a wrong root, signed for the canonical client of rollapp 0 but naming
+    sequencer a3 of rollapp 1 (which has no state at height 3) as proposer -/
+def hdrForeign : Hdr := { h := 3, cons := ⟨99, 30, 1⟩, propSig := 3, propData := 3, rev := 0, sole := true }
 
-/-- **agreement_inv_counterexample** (foreign proposer; monitors `C09/later_conflict_rejected/conflicting-header-accepted-after-state-update`,
-    `C09/signer_rules/…`): the conflicting header is accepted on the canonical client of rollapp 0 and the
-    consensus state at height 3 disagrees with the posted descriptor. -/
-theorem agreement_inv_counterexample :
-    (step sA (.updateClient 0 .top hdrForeign true)).2 = .ok ∧
-    ((getClient (step sA (.updateClient 0 .top hdrForeign true)).1 0).bind fun cl => (getCons cl 3).map (·.root)) = some 99 ∧
-    ((getDesc (step sA (.updateClient 0 .top hdrForeign true)).1 0 3).map (·.root)) = some 4 := by decide
-
-/-- the same header naming the rollapp's own sequencer is refused (root mismatch) and changes nothing -/
+/-- it is refused: the named proposer is not a sequencer of the client's rollapp -/
+example : step sA (.updateClient 0 .top hdrForeign true) = (sA, .ante .foreignSequencer) := by
+  refine Prod.ext ?_ ?_
+  · rfl
+  · decide
+/-- the same header naming the rollapp's own sequencer is refused (root mismatch) -/
 example : (step sA (.updateClient 0 .top { hdrForeign with propSig := 0, propData := 0 } true)).2 = .ante .root := by decide
 /-- an honest header at height 3 is accepted -/
-example : (step sA (.updateClient 0 .top { h := 3, cons := ⟨4, 30, 1⟩, propSig := 0, propData := 0, rev := 0 } true)).2 = .ok := by decide
+example : (step sA (.updateClient 0 .top { h := 3, cons := ⟨4, 30, 1⟩, propSig := 0, propData := 0, rev := 0, sole := true } true)).2 = .ok := by decide
 
 /-- rollapp 0 with state infos [1..8], [9], [10]; a client whose consensus states are at 8 (bogus root 99)
-    and 10 (agreeing): store order puts "1-10" before "1-8", the loop stops at the state info [9] and never
-    looks at height 8 -/
+    and 10 (agreeing) -/
 def opsD : List Op := mkRa 0 0 ++ [upd 0 0 1 8, upd 0 0 9 1, upd 0 0 10 1,
   .createClient 0 expParams 8 ⟨99, 80, 1002⟩,
-  .updateClient 0 .top { h := 10, cons := ⟨11, 100, 1⟩, propSig := 1001, propData := 1001, rev := 0 } true]
+  .updateClient 0 .top { h := 10, cons := ⟨11, 100, 1⟩, propSig := 1001, propData := 1001, rev := 0, sole := true } true]
 def sD : St := run (init P0) opsD
 
-/-- **set_canonical_agreement_counterexample** (monitor `C09/set_canonical_requires_agreement/existing-consensus-state-disagrees`):
-    the designation succeeds although the consensus state at height 8 disagrees with the descriptor. -/
-theorem set_canonical_agreement_counterexample :
-    (step sD (.setCanonical 0)).2 = .ok ∧
-    ((getClient sD 0).bind fun cl => (getCons cl 8).map (·.root)) = some 99 ∧
-    ((getDesc sD 0 8).map (·.root)) = some 9 ∧
-    ((getClient sD 0).map firstConsHeight) = some 10 := by decide
+/-- the designation is refused because of the consensus state at height 8; the lowest height is 8 -/
+example : (step sD (.setCanonical 0)).2 = .msg .root ∧ ((getClient sD 0).map firstConsHeight) = some 8 := by decide
 
 -- ================================================================================================
 -- 4. later_conflict_rejected
@@ -288,12 +234,11 @@ theorem updateClient_top_ante {s : St} {c : Nat} {hd : Hdr} {ibc : Bool} {x : St
     (h : handleUpdate s c hd = (x, some e)) : updateClient s c .top hd ibc = (s, .ante e) := by
   simp [updateClient, h]
 
-/-- **later_conflict_rejected** (header after state update) — a header for a height whose descriptor it
-    contradicts (root or timestamp), naming a sequencer of the client's own rollapp, is refused by the
-    ante handler and nothing changes; no hypothesis on the state. -/
-theorem later_conflict_rejected_header {s : St} {c r : Nat} {hd : Hdr} {ibc : Bool} {q : Core.Seq} {d : Desc}
-    (hc : lookup s.c2r c = some r) (hq : Core.getSeq s.core hd.propData = some q) (hn : q.rollapp = r)
-    (hd' : getDesc s r hd.h = some d) (hconf : ¬ Agrees hd.cons d) :
+/-- **later_conflict_rejected** (header after state update) — on a canonical client, a header for a height whose
+    descriptor it contradicts (root or timestamp) is refused by the ante handler and nothing changes, whoever
+    it names as proposer; no hypothesis on the state. -/
+theorem later_conflict_rejected_header {s : St} {c r : Nat} {hd : Hdr} {ibc : Bool} {d : Desc}
+    (hc : lookup s.c2r c = some r) (hd' : getDesc s r hd.h = some d) (hconf : ¬ Agrees hd.cons d) :
     ∃ e, updateClient s c .top hd ibc = (s, .ante e) := by
   cases hh : handleUpdate s c hd with
   | mk x oe =>
@@ -302,11 +247,9 @@ theorem later_conflict_rejected_header {s : St} {c r : Nat} {hd : Hdr} {ibc : Bo
     | none =>
       exfalso
       obtain ⟨_, _, _, _, _, hchk⟩ := handleUpdate_ok hh
-      obtain ⟨q', hq', _, _, _, hag⟩ := hchk r hc
-      rw [hq] at hq'; cases hq'
-      exact hconf (hag hn d hd')
+      obtain ⟨_, _, _, _, _, _, _, hag⟩ := hchk r hc
+      exact hconf (hag d hd')
 
-/-- a failed or refused Core-side op (state update, fork, unbond, …) leaves the whole state untouched -/
 theorem finishUpdate_reject (s s3 : St) (m : Core.UpdMsg) (ds : List (Nat × Option Nat)) (h : (finishUpdate s s3 m ds).2 ≠ .ok) :
     (finishUpdate s s3 m ds).1 = s := by
   unfold finishUpdate at h ⊢
@@ -360,19 +303,34 @@ theorem coreOp_reject_unchanged (s : St) (o : Core.Op) (ds : List (Nat × Option
     that contradicts an optimistically accepted header cannot get in. -/
 theorem later_conflict_rejected_update {s : St} (hg : Good s) (m : Core.UpdMsg) (ds : List (Nat × Option Nat)) :
     ((coreOp s (.update m) ds).2 ≠ .ok → (coreOp s (.update m) ds).1 = s) ∧ AgreeInv (coreOp s (.update m) ds).1 :=
-  ⟨coreOp_reject_unchanged s _ ds, (good_coreOp hg _ ds).agree⟩
+  ⟨coreOp_reject_unchanged s _ ds, (good_coreOp hg _ ds).2⟩
 
 /-- concrete: after an optimistic header at height 4 (root 5), a state update posting root 77 for height 4
     is refused with the root-mismatch error; the honest one is accepted -/
-def sOpt : St := (step sA (.updateClient 0 .top { h := 4, cons := ⟨5, 40, 1⟩, propSig := 0, propData := 0, rev := 0 } true)).1
+def sOpt : St := (step sA (.updateClient 0 .top { h := 4, cons := ⟨5, 40, 1⟩, propSig := 0, propData := 0, rev := 0, sole := true } true)).1
 example : (step sOpt (.core (.update { ra := 0, sender := 0, start := 4, num := 1, rev := 0, last := false, bds := bds 4 1 }) [(77, some 40)])).2 = .msg .root := by decide
 example : (step sOpt (upd 0 0 4 1)).2 = .ok := by decide
 
 
-/- The next-sequencer-hash component of the agreement is checked by the same two validators (`compat`), so
+/- The next-sequencer-hash component of the agreement is checked by the same validators (`compat`), so
    `later_conflict_rejected_header` and the validation path of state updates cover it step by step; it is
    not part of `AgreeInv` because the next sequencer of a height is read from the state info *as it is
-   when the later item arrives*.  One path writes a consensus state without that check: -/
+   when the later item arrives*.  The fork-resolution path writes a consensus state itself: -/
+
+/-- **resolve_fork_next_validators** — the consensus state `ResolveHardFork` writes for the first height of the
+    new revision carries the descriptor's root and timestamp and the validator-set hash of the sequencer the
+    state info names for the next block. -/
+theorem resolve_fork_next_validators {s s4 : St} {ra : Nat} {st : Core.SInfo} {cl : Client} (h : resolveFork s ra st cl = (s4, none)) :
+    ∃ d q, getDesc s ra st.start = some d ∧ nextSeqFor s.core st st.start = some q ∧
+      ∀ cl', getClient s4 cl.id = some cl' → getClient s cl.id = some cl →
+        getCons cl' st.start = some ⟨d.root, d.ts.getD 0, valHash q⟩ := by
+  obtain ⟨_, d, q, hd, hq, e⟩ := resolveFork_ok h
+  refine ⟨d, q, hd, hq, ?_⟩
+  intro cl' h1 h2
+  subst e
+  rw [getClient_setClient_self (cl := { cl with cons := insCons st.start ⟨d.root, d.ts.getD 0, valHash q⟩ cl.cons, latest := st.start, frozen := false }) h2] at h1
+  cases h1
+  rw [getCons_ins]; simp
 
 /-- rollapp 0 with sequencers a0 (proposer), a1, a2; canonical client; fork at height 3; a1 and a2 opt in
     (a1 becomes proposer), a1 serves its notice; the first state update of the new revision is a1's last
@@ -384,11 +342,9 @@ def opsC : List Op := mkRa 0 0 ++ [.core (.fund 1 100000) [], .core (.fund 2 100
   .core (.update { ra := 0, sender := 1, start := 3, num := 1, rev := 1, last := true, bds := bds 3 1 }) [(4, some 30)]]
 def sC : St := run (init P0) opsC
 
-/-- **resolve_fork_next_validators_counterexample** (monitor `C09/later_conflict_rejected/fork-resolution-writes-disagreeing-consensus-state`):
-    `ResolveHardFork` writes the consensus state of height 3 with the hash of the creator a1, while the state
-    info says the next sequencer of height 3 is a2. -/
-theorem resolve_fork_next_validators_counterexample :
-    ((getClient sC 0).bind fun cl => (getCons cl 3).map (·.nextVal)) = some (valHash 1) ∧
+/-- the consensus state of height 3 names the successor a2, as the state info does; the client is unfrozen -/
+example :
+    ((getClient sC 0).bind fun cl => (getCons cl 3).map (·.nextVal)) = some (valHash 2) ∧
     ((Core.getRa sC.core 0).bind fun r => r.states.getLast?.map fun st => (st.creator, st.next, st.start, st.last)) = some (1, .addr 2, 3, 3) ∧
     ((getClient sC 0).map (·.frozen)) = some false := by decide
 
@@ -396,29 +352,21 @@ theorem resolve_fork_next_validators_counterexample :
 -- 5. signer_rules
 -- ================================================================================================
 
-/-- **signer_rules** (as the code is) — a header the ante handler lets through on a canonical client has
-    equal proposer fields, names a registered sequencer that is bonded, and carries the latest revision
-    *of that sequencer's rollapp*.  -/
+/-- **signer_rules** — a header the ante handler lets through on the canonical client of rollapp `r` has equal
+    proposer fields, names a registered sequencer *of `r`* that is bonded, its validator set is that sequencer
+    alone (so the sequencer is the signer), and it carries `r`'s latest revision. -/
 theorem signer_rules {s : St} {c r : Nat} {hd : Hdr} {ibc : Bool} (hc : lookup s.c2r c = some r)
     (hacc : ∀ e, (updateClient s c .top hd ibc).2 ≠ .ante e) :
-    hd.propSig = hd.propData ∧ ∃ q ra, Core.getSeq s.core hd.propData = some q ∧ q.bonded = true ∧
-      Core.getRa s.core q.rollapp = some ra ∧ hd.rev = Core.latestRev ra := by
+    hd.propSig = hd.propData ∧ hd.sole = true ∧ ∃ q ra, Core.getSeq s.core hd.propData = some q ∧ q.bonded = true ∧ q.rollapp = r ∧
+      Core.getRa s.core r = some ra ∧ hd.rev = Core.latestRev ra := by
   cases hh : handleUpdate s c hd with
   | mk x oe =>
     cases oe with
     | some e => exact absurd (by rw [updateClient_top_ante hh]) (hacc e)
     | none =>
       obtain ⟨_, _, _, _, _, hchk⟩ := handleUpdate_ok hh
-      obtain ⟨q, hq, hp, hb, ⟨ra, hra, hrev⟩, _⟩ := hchk r hc
-      exact ⟨hp, q, ra, hq, hb, hra, hrev⟩
-
-/- Full clause: "… is a bonded sequencer of *that* rollapp for *its* current revision" (q.rollapp = r).
-   FALSE of the current code: -/
-/-- **signer_rules_counterexample**: the accepted header of `agreement_inv_counterexample` names a3, a
-    sequencer of rollapp 1, on the canonical client of rollapp 0. -/
-theorem signer_rules_counterexample :
-    lookup sA.c2r 0 = some 0 ∧ (step sA (.updateClient 0 .top hdrForeign true)).2 = .ok ∧
-    ((Core.getSeq sA.core hdrForeign.propData).map (·.rollapp)) = some 1 := by decide
+      obtain ⟨q, hq, hp, hb, hqr, hsole, ⟨ra, hra, hrev⟩, _⟩ := hchk r hc
+      exact ⟨hp, hsole, q, ra, hq, hb, hqr, hra, hrev⟩
 
 /-- non-vacuity of the refusals: unknown key, unbonded… -/
 example : (step sA (.updateClient 0 .top { hdrForeign with propSig := 1000, propData := 1000 } true)).2 = .ante .nonSequencer := by decide
@@ -429,27 +377,20 @@ example : (step sA (.updateClient 0 .top { hdrForeign with propSig := 0, propDat
 -- 6. misbehaviour_rejected, 7. nested_update_rejected
 -- ================================================================================================
 
-/- Full clause: every misbehaviour submission against a canonical client is rejected:
-     lookup s.c2r c = some r → (misbehaviour s c k ibc).1 = s ∧ (misbehaviour s c k ibc).2 ≠ .ok
-   FALSE of the current code for k = submitNested. -/
-
-/-- **misbehaviour_rejected_partial** — by every route except `MsgSubmitMisbehaviour` inside `authz.MsgExec`,
-    evidence against a canonical client is refused and nothing changes. -/
-theorem misbehaviour_rejected_partial {s : St} {c r : Nat} (k : MKind) (ibc : Bool) (hc : lookup s.c2r c = some r)
-    (hk : k ≠ .submitNested) : (misbehaviour s c k ibc).1 = s ∧ (misbehaviour s c k ibc).2 ≠ .ok := by
+/-- **misbehaviour_rejected** — by every route (top level, through a client update, nested in a wrapper) evidence
+    against a canonical client is refused and nothing changes. -/
+theorem misbehaviour_rejected {s : St} {c r : Nat} (k : MKind) (ibc : Bool) (hc : lookup s.c2r c = some r) :
+    (misbehaviour s c k ibc).1 = s ∧ (misbehaviour s c k ibc).2 ≠ .ok := by
   unfold misbehaviour
   cases getClient s c with
   | none => exact ⟨rfl, by simp⟩
   | some cl =>
     cases k <;> simp_all
 
-/-- **misbehaviour_rejected_counterexample** (monitor `C09/misbehaviour_rejected/…`): nested in `authz.MsgExec`
-    the ante handler does not see `MsgSubmitMisbehaviour`; verifying evidence freezes the canonical client. -/
-theorem misbehaviour_rejected_counterexample :
-    lookup sA.c2r 0 = some 0 ∧ (step sA (.misbehaviour 0 .submitNested true)).2 = .ok ∧
-    ((getClient (step sA (.misbehaviour 0 .submitNested true)).1 0).map (·.frozen)) = some true := by decide
-
-example : (step sA (.misbehaviour 0 .submit true)).2 = .ante .misbehaviourDisabled := by decide
+example : (step sA (.misbehaviour 0 .submit true)).2 = .ante .misbehaviourDisabled ∧
+    (step sA (.misbehaviour 0 .submitNested true)).2 = .ante .nestedDisabled := by decide
+/-- clients that are not canonical can still be frozen by evidence -/
+example : ((getClient (step sD (.misbehaviour 0 .submit true)).1 0).map (·.frozen)) = some true := by decide
 
 /-- **nested_update_rejected** — an ibc `MsgUpdateClient` inside any wrapper (depth ≥ 1) is refused by the
     ante handler whatever it carries, and nothing changes; the hub-side checks cannot be bypassed by nesting. -/
